@@ -451,7 +451,7 @@ def pmap(module, func, cases, deadline=20.0, workers=None):
     if n == 0:
         return results
     if workers is None:
-        workers = max(1, min(int(os.environ.get("VERIF_WORKERS", "12")), (n + 7) // 8))
+        workers = max(1, min(int(os.environ.get("VERIF_WORKERS", "12")), n))
     q = queue.Queue()
     for i in range(n):
         q.put(i)
